@@ -13,6 +13,9 @@ for p in sorted(glob.glob("checks/C*.json")):
     if not c.get("claimed", True): continue
     mods += c["lean_props"] + ([c["driver"]] if c.get("driver") else [])
     bins.append(c["engine"])
+    for t in c.get("extra_ties", []):
+        if t.get("driver"): mods.append(t["driver"])
+        bins.append(t["engine"])
 print(" ".join(dict.fromkeys(mods)) + "|" + " ".join("--bin " + b for b in dict.fromkeys(bins)))
 PY
 )
